@@ -223,7 +223,8 @@ static void stage_tj(unsigned char *src, unsigned long size, int n, xf_t *xf, un
     const char *m = tj3GetErrorStr(h);
     const char *nm = strstr(m, "not perfect") ? "NotPerfect" : strstr(m, "Invalid crop request") ? "BadCrop" :
                      strstr(m, "To crop this JPEG") ? "Align" : strstr(m, "Unsupported color conversion") ? "NoGray" :
-                     strstr(m, "multiple use of quantization table") ? "QuantReuse" : NULL;
+                     strstr(m, "multiple use of quantization table") ? "QuantReuse" :
+                     strstr(m, "Could not determine subsampling level") ? "UnknownSubsamp" : NULL;
     if (nm) printf("err %s", nm); else { char mm[80]; int j; snprintf(mm, sizeof mm, "%s", m); for (j = 0; mm[j]; j++) if (mm[j] == ' ' || mm[j] == '\n' || mm[j] == '|' || mm[j] == '#' || mm[j] == ';') mm[j] = '_'; printf("err Other:%s", mm); }
   } else {
     printf("ok");
@@ -320,6 +321,20 @@ int main(void)
   while (getline(&line, &cap, stdin) > 0) {
     char *p = line; int w, h, prec, cs, nc, hs[MAX_COMPONENTS], vs[MAX_COMPONENTS], kind, mode, amp, nst, i, s, rc;
     unsigned long long seed; unsigned char *cur = NULL; unsigned long cursize = 0; reslot_t rsl;
+    if (!strncmp(p, "ss ", 3)) {
+      /* ss CS NC {hs vs}*NC : getSubsamp() of a real 16x16 file with these factors, through tj3DecompressHeader */
+      int cs2, nc2, hs2[MAX_COMPONENTS], vs2[MAX_COMPONENTS], k2; reslot_t r0; unsigned char *b2 = NULL; unsigned long n2 = 0;
+      p += 3; cs2 = tok(&p); nc2 = tok(&p);
+      for (k2 = 0; k2 < nc2 && k2 < MAX_COMPONENTS; k2++) { hs2[k2] = tok(&p); vs2[k2] = tok(&p); }
+      memset(&r0, 0, sizeof r0);
+      if (make_source(16, 16, 8, cs2, nc2, hs2, vs2, 1, 1, 5, 99, &r0, &b2, &n2)) printf("srcerr\n");
+      else {
+        tjhandle h2 = tj3Init(TJINIT_DECOMPRESS);
+        if (tj3DecompressHeader(h2, b2, n2) < 0) printf("hdrerr\n"); else printf("ss %d\n", tj3Get(h2, TJPARAM_SUBSAMP));
+        tj3Destroy(h2); free(b2);
+      }
+      fflush(stdout); continue;
+    }
     if (strncmp(p, "case ", 5)) { printf("?\n"); fflush(stdout); continue; }
     p += 5;
     w = tok(&p); h = tok(&p); prec = tok(&p); cs = tok(&p); nc = tok(&p);
